@@ -18,3 +18,8 @@ CLAIMS["C11"] = (
     "Generated non-cubic arrays of four dtypes go through write/read, em2mrc/mrc2em and invert_contrast; the written bytes are parsed by the harness' own parsers (header dims, type code, x-fastest voxel order) and files written by the harness' own writers are read by cryoCAT. Held on everything explored.",
     "Trusts the harness' MRC/EM byte layout knowledge (1024/512-byte headers); casts limited to value-preserving ones.",
 )
+CLAIMS["C12"] = (
+    "property-based test of the transfer function against an integer-frequency-grid oracle + metamorphic relations (linearity, shift commutation, complement, band = difference, plane waves)",
+    "Generated maps (noise, impulses, plane waves; non-cubic, odd/even) are filtered and the DFT of the output is compared with the exact radial step gain (hard edge) or with the stated bands, range and ray-wise monotonicity (soft edge); thorough adds every integer frequency of an 8x9x10 box. Held on everything explored.",
+    "Trusts numpy.fft as the DFT and the harness' integer frequency grid; soft-edge band tolerance 1.5e-3 derived from the truncated Gaussian kernel.",
+)
